@@ -40,6 +40,7 @@ structure D where
   tRhook : Bool := false
   hookVal : HookRes := .ok
   cancelIssued : Bool := false
+  pauseSeen : Bool := false          -- the script issued a pause (API or block hook)
   -- print cursors
   nP : Nat := 0
   nE : Nat := 0
@@ -257,6 +258,10 @@ def hookOf (s : String) : HookRes :=
   if s == "err" then .err else if s == "hp" then .pause else .ok
 
 def sendResp (d : D) (p st items : Nat) (hk : Bool) (skip : Nat := 0) : D :=
+  -- blocks travel only for a request that reached the network, and not while the manager is held once a
+  -- pause made a re-request possible (see harness sendResp)
+  let reqOut := d.s.outbox.any fun o => o.kind == .req
+  let items := if !reqOut || (d.gRhook && d.pauseSeen) then 0 else items
   let lo := min (d.spos + skip) d.n
   let hi := min (lo + items) d.n
   let its := (List.range (hi - lo)).map (· + lo)
@@ -288,7 +293,7 @@ def stepLine (d : D) (t : Toks) : D × String :=
     match n.toNat?, k.toNat?, v.toNat? with
     | some n, some k, some v =>
       if d.created || n < 1 || n > 8 || k > n || v < 1 || v > 6 then (d, "bad-op") else
-      let d := { d with created := true, n, k, v, s := init 0 1000000000 (n * (v + 1) + 1) }
+      let d := { d with created := true, n, k, v, s := init 0 1000000000 (n * (v + 1) + 2) }
       obs (settleD (stim d .envNew)) ""
     | _, _, _ => (d, "bad-op")
   | ["gate", g, x] =>
@@ -304,11 +309,13 @@ def stepLine (d : D) (t : Toks) : D × String :=
     | _ => (d, "bad-op")
   | "step" :: g :: rest =>
     let val := hookOf (rest.headD "ok")
+    let d := if val == .pause then { d with pauseSeen := true } else d
     match grant d g val with
     | some d' => obs (settleD d') ""
     | none => obs (settleD d) "none"
   | "adv" :: rest =>
     let val := hookOf (rest.headD "ok")
+    let d := if val == .pause then { d with pauseSeen := true } else d
     match ["work", "read", "hook", "send"].findSome? fun g => grant d g val with
     | some d' => obs (settleD d') ""
     | none => obs (settleD d) "none"
@@ -329,7 +336,7 @@ def stepLine (d : D) (t : Toks) : D × String :=
   | ["cancelapi"] =>
     if !d.created then (d, "bad-op") else
     obs (settleD (stim { d with cancelIssued := true } .envCancelApi)) ""
-  | ["pause"] => if !d.created then (d, "bad-op") else obs (settleD (stim d .envPause)) ""
+  | ["pause"] => if !d.created then (d, "bad-op") else obs (settleD (stim { d with pauseSeen := true } .envPause)) ""
   | ["unpause"] => if !d.created then (d, "bad-op") else obs (settleD (stim d .envUnpause)) ""
   | ["disc"] =>
     if !d.created then (d, "bad-op") else
